@@ -713,4 +713,196 @@ theorem sstFromStream_encode (cstTotal : Nat) (table : List Entry) (lys : List E
   rw [List.append_nil] at hnr
   simp only [sstFromStream, hnr, Res.bind_ok, if_true]
   exact parseSst_encode cstTotal table lys hok hcount 0xFC
+
+/-! ### strings inside one record -/
+
+theorem parseString_roundtrip (wide : Bool) (us : List Nat) (trail : Bytes)
+    (hlt : ∀ u ∈ us, u < 65536) (hcch : us.length < 65536) (hpack : wide = false → ∀ u ∈ us, u < 256) :
+    parseString (xlUnicodeString wide us ++ trail) true = .ok (decodeUtf16 us) := by
+  unfold parseString parseStringWith xlUnicodeString
+  have hl : ¬ (le16 us.length ++ (flagByte wide :: encUnits wide us) ++ trail).length < 3 := by simp; omega
+  have hc : u16 (le16 us.length ++ (flagByte wide :: encUnits wide us) ++ trail) = us.length := by
+    rw [List.append_assoc]; exact u16_le16 _ hcch _
+  have hf : (le16 us.length ++ (flagByte wide :: encUnits wide us) ++ trail).getD 2 0 = flagByte wide := rfl
+  have hd : (le16 us.length ++ (flagByte wide :: encUnits wide us) ++ trail).drop 3 = encUnits wide us ++ trail := rfl
+  simp only [if_true, hl, if_false, hc, hf, hd, flagHigh_flagByte]
+  rw [decodeTo_segment wide us trail us.length hlt hpack (Nat.le_refl _) (Or.inr rfl)]
+
+theorem parseShortString_roundtrip (wide : Bool) (us : List Nat) (trail : Bytes)
+    (hlt : ∀ u ∈ us, u < 65536) (hcch : us.length < 256) (hpack : wide = false → ∀ u ∈ us, u < 256) :
+    parseShortString (shortXlUnicodeString wide us ++ trail) true = .ok (decodeUtf16 us) := by
+  unfold parseShortString shortXlUnicodeString
+  have hl : ¬ (byte us.length :: flagByte wide :: (encUnits wide us ++ trail)).length < 2 := by simp
+  have hb : (byte us.length).toNat = us.length := by rw [byte_toNat]; omega
+  simp only [if_true, List.cons_append, List.getD_cons_zero, List.drop_succ_cons, List.drop_zero, hb,
+    flagHigh_flagByte]
+  rw [decodeTo_segment wide us trail us.length hlt hpack (Nat.le_refl _) (Or.inr rfl)]
+  simp only [hl, if_false]
+
+
+/-! ### the readers never run out of fuel -/
+
+theorem bind_ne_fuel {α β : Type} (x : Res α) (f : α → Res β) (hx : x ≠ .outOfFuel) (hf : ∀ a, f a ≠ .outOfFuel) :
+    (x >>= f) ≠ .outOfFuel := by
+  cases x with
+  | ok a => exact hf a
+  | err e => simp [bind, Res.bind]
+  | panic e => simp [bind, Res.bind]
+  | outOfFuel => exact absurd rfl hx
+
+theorem ite_ne_fuel {α : Type} (c : Prop) [Decidable c] (a b : Res α) (ha : a ≠ .outOfFuel) (hb : b ≠ .outOfFuel) :
+    (if c then a else b) ≠ .outOfFuel := by split <;> assumption
+
+theorem skip_ne_fuel : ∀ (cont : List Bytes) (n : Nat) (data : Bytes), skip n data cont ≠ .outOfFuel
+  | [], n, data => by rw [skip]; split <;> (try split) <;> simp
+  | f :: fs, n, data => by
+    rw [skip]; split <;> (try split) <;> (try simp)
+    exact skip_ne_fuel fs _ f
+
+theorem readDbcs_ne_fuel : ∀ (cont : List Bytes) (n : Nat) (w : Bool) (data : Bytes), readDbcs n w data cont ≠ .outOfFuel
+  | [], n, w, data => by
+    rw [readDbcs]
+    by_cases h0 : n = 0 <;> by_cases h1 : n - (decodeTo data n w).2.1 = 0 <;> simp [h0, h1]
+  | [] :: _, n, w, data => by
+    rw [readDbcs]
+    by_cases h0 : n = 0 <;> by_cases h1 : n - (decodeTo data n w).2.1 = 0 <;> simp [h0, h1]
+  | (b :: rest) :: fs, n, w, data => by
+    rw [readDbcs]
+    by_cases h0 : n = 0
+    · simp [h0]
+    · by_cases h1 : n - (decodeTo data n w).2.1 = 0
+      · simp [h0, h1]
+      · simp only [h0, h1, if_false]
+        exact bind_ne_fuel _ _ (readDbcs_ne_fuel fs _ _ rest) (fun a => by simp [pure])
+
+theorem readRichAt_ne_fuel (r : Rd) : readRichAt r ≠ .outOfFuel := by
+  unfold readRichAt
+  simp only []
+  refine ite_ne_fuel _ _ _ (by simp) ?_
+  refine ite_ne_fuel _ _ _ (by simp) ?_
+  refine ite_ne_fuel _ _ _ (by simp) ?_
+  refine bind_ne_fuel _ _ (readDbcs_ne_fuel _ _ _ _) (fun a => ?_)
+  refine bind_ne_fuel _ _ (skip_ne_fuel _ _ _) (fun b => ?_)
+  refine bind_ne_fuel _ _ (skip_ne_fuel _ _ _) (fun c => by simp [pure])
+
+theorem readRich_ne_fuel (r : Rd) : readRich r ≠ .outOfFuel := by
+  unfold readRich
+  split
+  · simp
+  · exact readRichAt_ne_fuel _
+
+theorem readStrings_ne_fuel : ∀ (n : Nat) (r : Rd), readStrings n r ≠ .outOfFuel
+  | 0, _ => by simp [readStrings]
+  | n + 1, r => by
+    rw [readStrings]
+    refine bind_ne_fuel _ _ (readRich_ne_fuel r) (fun a => ?_)
+    refine bind_ne_fuel _ _ (readStrings_ne_fuel n _) (fun b => by simp [pure])
+
+theorem parseSst_ne_fuel (r : Rec) : parseSst r ≠ .outOfFuel := by
+  unfold parseSst
+  simp only []
+  refine ite_ne_fuel _ _ _ (by simp) ?_
+  refine ite_ne_fuel _ _ _ (by simp) ?_
+  exact readStrings_ne_fuel _ _
+
+theorem gather_fuel : ∀ (fuel : Nat) (s : Bytes), s.length / 4 < fuel → gather fuel s ≠ .outOfFuel
+  | 0, _, h => by omega
+  | fuel + 1, s, h => by
+    rw [gather]
+    by_cases hc : (hasLen s 5 && decide (u16 s = 0x3C)) = true
+    · simp only [hc, if_true]
+      simp only [Bool.and_eq_true, decide_eq_true_eq, hasLen_iff] at hc
+      by_cases h2 : (!hasLen s (u16 (s.drop 2) + 4)) = true
+      · simp [h2]
+      · simp only [h2, Bool.false_eq_true, if_false]
+        have hlen : ((s.drop (u16 (s.drop 2) + 4)).length) / 4 < fuel := by
+          rw [List.length_drop]; omega
+        have ih := gather_fuel fuel _ hlen
+        cases hg : gather fuel (s.drop (u16 (s.drop 2) + 4)) with
+        | ok v => simp [bind, Res.bind]
+        | err e => simp [bind, Res.bind]
+        | panic e => simp [bind, Res.bind]
+        | outOfFuel => exact absurd hg ih
+    · simp [hc]
+
+
+
+theorem gather_rest_le : ∀ (fuel : Nat) (s : Bytes) (fs : List Bytes) (rest : Bytes),
+    gather fuel s = .ok (fs, rest) → rest.length ≤ s.length
+  | 0, _, _, _, h => by simp [gather] at h
+  | fuel + 1, s, fs, rest, h => by
+    rw [gather] at h
+    by_cases hc : (hasLen s 5 && decide (u16 s = 0x3C)) = true
+    · simp only [hc, if_true] at h
+      by_cases h2 : (!hasLen s (u16 (s.drop 2) + 4)) = true
+      · simp [h2] at h
+      · simp only [h2, Bool.false_eq_true, if_false] at h
+        cases hg : gather fuel (s.drop (u16 (s.drop 2) + 4)) with
+        | ok v =>
+          obtain ⟨fs', rest'⟩ := v
+          have ih := gather_rest_le fuel _ fs' rest' hg
+          rw [hg] at h
+          simp only [bind, Res.bind, pure, Res.ok.injEq, Prod.mk.injEq] at h
+          rw [← h.2]
+          rw [List.length_drop] at ih; omega
+        | err e => rw [hg] at h; simp [bind, Res.bind] at h
+        | panic e => rw [hg] at h; simp [bind, Res.bind] at h
+        | outOfFuel => rw [hg] at h; simp [bind, Res.bind] at h
+    · simp only [hc, Bool.false_eq_true, if_false, Res.ok.injEq, Prod.mk.injEq] at h
+      rw [← h.2]; exact Nat.le_refl _
+
+theorem nextRecord_ne_fuel (s : Bytes) : nextRecord s ≠ some .outOfFuel := by
+  unfold nextRecord
+  simp only []
+  split
+  · split <;> simp
+  · split
+    · simp
+    · intro h
+      simp only [Option.some.injEq] at h
+      exact bind_ne_fuel _ _ (gather_fuel _ _ (by omega)) (fun a => by simp [pure]) h
+
+theorem nextRecord_progress (s : Bytes) (r : Rec) (rest : Bytes) (h : nextRecord s = some (.ok (r, rest))) :
+    rest.length + 4 ≤ s.length := by
+  unfold nextRecord at h
+  simp only [] at h
+  split at h
+  · split at h <;> simp at h
+  · rename_i h4
+    split at h
+    · simp at h
+    · rename_i hl
+      simp only [hasLen_iff, Bool.not_eq_eq_eq_not, Bool.not_true, decide_eq_false_iff_not, Nat.not_le] at h4 hl
+      simp only [Option.some.injEq] at h
+      cases hg : gather ((s.drop (u16 (s.drop 2) + 4)).length / 4 + 1) (s.drop (u16 (s.drop 2) + 4)) with
+      | ok v =>
+        obtain ⟨fs', rest'⟩ := v
+        have := gather_rest_le _ _ _ _ hg
+        rw [hg] at h
+        simp only [bind, Res.bind, pure, Res.ok.injEq, Prod.mk.injEq] at h
+        rw [← h.2]
+        rw [List.length_drop] at this
+        omega
+      | err e => rw [hg] at h; simp [bind, Res.bind] at h
+      | panic e => rw [hg] at h; simp [bind, Res.bind] at h
+      | outOfFuel => rw [hg] at h; simp [bind, Res.bind] at h
+
+/-- the driver's fuel (`stream length + 1`) is never exhausted -/
+theorem sstFromStream_ne_fuel : ∀ (fuel : Nat) (s : Bytes), s.length < fuel → sstFromStream fuel s ≠ .outOfFuel
+  | 0, _, h => by omega
+  | fuel + 1, s, h => by
+    rw [sstFromStream]
+    cases hn : nextRecord s with
+    | none => simp
+    | some x =>
+      cases x with
+      | ok v =>
+        obtain ⟨r, rest⟩ := v
+        have hp := nextRecord_progress s r rest hn
+        simp only [Res.bind_ok]
+        refine ite_ne_fuel _ _ _ (parseSst_ne_fuel r) (sstFromStream_ne_fuel fuel rest (by omega))
+      | err e => simp [bind, Res.bind]
+      | panic e => simp [bind, Res.bind]
+      | outOfFuel => exact absurd hn (nextRecord_ne_fuel s)
+
 end Biff
